@@ -86,6 +86,8 @@ def boot(serial_pool: bool = True):
     import warnings
 
     warnings.filterwarnings("ignore")
+    if os.environ.get("PV_COVER"):
+        cover_start()
     with quiet():
         import panoptica  # noqa
         import panoptica._functionals as F
@@ -102,6 +104,35 @@ def boot(serial_pool: bool = True):
 
     np.seterr(all="ignore")
     _BOOTED = True
+
+
+_COVER = set()
+
+
+def cover_start():
+    """Development aid (PV_COVER=<dir>): which lines of the library do the checks execute? Uses
+    sys.monitoring with per-location disabling, so the cost is one callback per line ever."""
+    mon = sys.monitoring
+    prefix = os.path.join(REPO, "panoptica")
+
+    def on_line(code, line):
+        if code.co_filename.startswith(prefix):
+            _COVER.add((code.co_filename[len(REPO) + 1:], line))
+        return mon.DISABLE
+
+    mon.use_tool_id(3, "pvcover")
+    mon.register_callback(3, mon.events.LINE, on_line)
+    mon.set_events(3, mon.events.LINE)
+
+
+def cover_dump():
+    d = os.environ.get("PV_COVER")
+    if d and _COVER:
+        os.makedirs(d, exist_ok=True)
+        name = os.path.join(d, f"{os.getpid()}_{time.time_ns()}.json")
+        with open(name + ".tmp", "w") as f:
+            json.dump(sorted(_COVER), f)
+        os.replace(name + ".tmp", name)
 
 
 @contextlib.contextmanager
@@ -300,6 +331,7 @@ def run_sharded(worker, nshards: int = None, timeout_s: float = 3600.0):
                 res = ("err", "".join(traceback.format_exception(e))[-4000:])
                 code = 3
             try:
+                cover_dump()
                 with os.fdopen(w, "wb") as f:
                     pickle.dump(res, f)
             finally:
@@ -322,7 +354,7 @@ def run_sharded(worker, nshards: int = None, timeout_s: float = 3600.0):
                 except OSError:
                     pass
             raise HarnessError("watchdog: shard timeout (inconclusive)")
-        rl, _, _ = select.select(list(open_fds), [], [], min(left, 5.0))
+        rl = wait_readable(list(open_fds), min(left, 5.0))
         for fd in rl:
             chunk = os.read(fd, 1 << 20)
             if chunk:
@@ -364,6 +396,16 @@ def load_replay(path: str):
 
 
 # ----------------------------------------------------------------------------- comparators
+def wait_readable(fds, timeout_s):
+    """select() without its FD_SETSIZE limit (a tree that leaks descriptors must not break the harness)."""
+    import select
+
+    po = select.poll()
+    for fd in fds:
+        po.register(fd, select.POLLIN | select.POLLHUP)
+    return [fd for fd, _ in po.poll(max(0, timeout_s) * 1000)]
+
+
 def same_value(a, b, tol=1e-9) -> bool:
     """NaN==NaN, None==None, inf by sign, numbers within abs/rel tol."""
     if a is None or b is None:
